@@ -8,13 +8,13 @@
 open Vext
 open Vio
 
-let path_of (s : string) (off : int) : cpath =
+let path_of (s : String.t) (off : int) : cpath =
   let b i = s.[off + i] = '1' in
   { c_exps = b 0; c_coeffs = b 1; c_cvec = b 2; c_lptr = b 3; c_lcenter = b 4; c_minexp = b 5; c_am = b 6; c_atom = b 7; c_reseat = b 8 }
 
 let zi = z_of_int
 let ni = nat_of_int
-let op_of (s : string) : cop =
+let op_of (s : String.t) : cop =
   match split_ws s with
   | ["XE"; a; l] -> OCtorExt (ni (int_of_string a), zi (int_of_string l))
   | ["XL"; c; l] -> OCtorLoc (zi (int_of_string c), zi (int_of_string l))
